@@ -15,29 +15,29 @@ variable (delay : Nat) (scripts : List (List Op)) (as : List Action)
 theorem accounting (h : distinctPuts scripts) :
     live (run (init delay scripts) as).hist =
       gots (run (init delay scripts) as).hist ++ (run (init delay scripts) as).queue.map Entry.elem :=
-  Proofs.accounting delay scripts as h
+  ProofsDQ.accounting delay scripts as h
 
 /-- every element is handed out at most once, by `get()` xor `remove()` -/
 theorem exactly_once (h : distinctPuts scripts) :
     (gots (run (init delay scripts) as).hist ++ removeds (run (init delay scripts) as).hist).Nodup :=
-  Proofs.exactly_once delay scripts as h
+  ProofsDQ.exactly_once delay scripts as h
 
 /-- elements leave through `get()` in the order they were put in -/
 theorem fifo (h : distinctPuts scripts) :
     (gots (run (init delay scripts) as).hist).Sublist (puts (run (init delay scripts) as).hist) :=
-  Proofs.fifo delay scripts as h
+  ProofsDQ.fifo delay scripts as h
 
 /-- an element removed by `remove()` is never returned by `get()` (not even to a consumer that
     was already waiting on it) -/
 theorem removed_not_returned (h : distinctPuts scripts) (e : Elem)
     (hr : e ∈ removeds (run (init delay scripts) as).hist) : e ∉ gots (run (init delay scripts) as).hist :=
-  Proofs.removed_not_returned delay scripts as h e hr
+  ProofsDQ.removed_not_returned delay scripts as h e hr
 
 /-- a delayed element is never returned before its delay has elapsed since insertion -/
 theorem never_early (h : distinctPuts scripts) (tid tid' : Nat) (e : Elem) (t t0 : Nat)
     (hg : Obs.got tid e t ∈ (run (init delay scripts) as).hist)
     (hp : Obs.put tid' e true t0 ∈ (run (init delay scripts) as).hist) : t0 + delay ≤ t :=
-  Proofs.never_early delay scripts as h tid tid' e t t0 hg hp
+  ProofsDQ.never_early delay scripts as h tid tid' e t t0 hg hp
 
 /-- an element put without delay is available immediately once it is at the head: a `get()` that
     finds it there goes straight to the pop (no sleep, clock unchanged) and the pop returns it -/
@@ -47,21 +47,21 @@ theorem immediate (s : State) (tid : Nat) (t : Thread) (head : Entry) (rest : Li
     ∃ s1, step s tid = some s1 ∧ s1.clock = s.clock ∧ s1.queue = s.queue ∧
       (∃ t1, s1.thread? tid = some t1 ∧ t1.pc = .getPop head) ∧
       ∃ s2, step s1 tid = some s2 ∧ Obs.got tid head.elem s.clock ∈ s2.hist ∧ s2.queue = rest :=
-  Proofs.immediate s tid t head rest ht hpc hq hnd hc
+  ProofsDQ.immediate s tid t head rest ht hpc hq hnd hc
 
 /-- after `close()` has completed, no consumer is left blocked un-notified in `wait()` (single
     consumer, as in the library) ... -/
 theorem close_unblocks (h : singleConsumer scripts) (ctid t0 : Nat)
     (hc : Obs.closed ctid t0 ∈ (run (init delay scripts) as).hist) (tid : Nat) (t : Thread)
     (ht : (run (init delay scripts) as).thread? tid = some t) (hw : t.pc = .getWait) : t.notified = true :=
-  Proofs.close_unblocks delay scripts as h ctid t0 hc tid t ht hw
+  ProofsDQ.close_unblocks delay scripts as h ctid t0 hc tid t ht hw
 
 /-- ... and a `get()` that runs once the queue is closed returns the end marker instead of blocking -/
 theorem closed_get_returns_none (s : State) (tid : Nat) (t : Thread)
     (ht : s.thread? tid = some t) (hpc : t.pc = .getAcq ∨ (t.pc = .getWait ∧ t.notified = true))
     (hc : s.closed = true) :
     ∃ s1, step s tid = some s1 ∧ Obs.gotNone tid s.clock ∈ s1.hist :=
-  Proofs.closed_get_returns_none s tid t ht hpc hc
+  ProofsDQ.closed_get_returns_none s tid t ht hpc hc
 
 /-- non-vacuity: a producer puts a delayed and a plain element, a remover takes the first out while
     the consumer sleeps on it; the consumer then gets only the second one, at the removal's time -/
